@@ -19,6 +19,7 @@ func C01Cells() []cells.Cell {
 	cs = append(cs, cells.SchemaCells()...)
 	cs = append(cs, cells.ParamCells()...)
 	cs = append(cs, cells.HeaderCells()...)
+	cs = append(cs, cells.HeaderNameCells()...)
 	cs = append(cs, cells.NameCells()...)
 	cs = append(cs, cells.TextCells()...)
 	cs = append(cs, cells.StatusCells()...)
@@ -127,6 +128,7 @@ func C01(run *report.Run) {
 	perFam := map[string]map[string]int{}
 	var files, judged int64
 	healthyCells := map[string]bool{}
+	unhealthyCells := map[string]bool{}
 	env.Pool.RunAll(jobs, func(j *genrun.Job, r *genrun.Result) {
 		var i int
 		fmt.Sscanf(j.ID, "s%d", &i)
@@ -148,6 +150,7 @@ func C01(run *report.Run) {
 				healthyCells[st.cell.ID] = true
 			} else {
 				perFam[fam]["violating"]++
+				unhealthyCells[st.cell.ID] = true
 			}
 			for _, va := range vs {
 				run.Violate(&report.Violation{
@@ -160,16 +163,56 @@ func C01(run *report.Run) {
 			}
 		case genrun.GenError:
 			perFam[fam]["rejected"]++
+			unhealthyCells[st.cell.ID] = true
 		case genrun.LoadRejected:
 			perFam[fam]["load-rejected"]++
 		default: // panic / fatal: C15's business, recorded here
 			perFam[fam][r.Outcome]++
+			unhealthyCells[st.cell.ID] = true
 		}
 		if i%997 == 0 {
 			run.Sample(map[string]any{"state": st.cell.ID, "flags": st.flags.String(), "outcome": r.Outcome, "msg": trunc(r.Msg, 120), "files": r.Files})
 		}
 	})
-	run.Cov["states"] = len(states)
+	// ---- level 2: every unordered pair of healthy representative cells merged into one spec ----------
+	reps := c01Representatives(cs, healthyCells, unhealthyCells, run.Tier)
+	var pairStates []c01state
+	for i := range reps {
+		for j := i; j < len(reps); j++ {
+			pairStates = append(pairStates, c01state{cells.Merge(reps[i], reps[j]), cells.Flags{Client: true, DoNotEdit: true, Cors: true, Base: "none"}})
+		}
+	}
+	pjobs := make([]*genrun.Job, len(pairStates))
+	for i, st := range pairStates {
+		pjobs[i] = JobFor(env, fmt.Sprintf("q%06d", i), st.cell, st.flags)
+	}
+	pairOutcomes := map[string]int{}
+	env.Pool.RunAll(pjobs, func(j *genrun.Job, r *genrun.Result) {
+		var i int
+		fmt.Sscanf(j.ID, "q%d", &i)
+		st := pairStates[i]
+		pairOutcomes[r.Outcome]++
+		if r.Outcome == "internal" {
+			internal("job %s: %s", st.cell.ID, r.Msg)
+		}
+		if r.Outcome != genrun.Success {
+			// both members generate alone: their composition must too
+			run.Violate(&report.Violation{Attrs: map[string]string{"fam": "pair", "oracle": "composition-rejected", "outcome": r.Outcome, "diagclass": DiagClass(stripQuoted(r.Msg))}, State: st.cell.ID,
+				Observed: "two cells that generate alone do not generate together: " + r.Outcome + " " + trunc(r.Msg, 200), Detail: map[string]any{"job": j}})
+			return
+		}
+		judged++
+		files += int64(len(r.Files))
+		for _, va := range judgeStatic(r, true) {
+			run.Violate(&report.Violation{Attrs: mergeAttrs(map[string]string{"fam": "pair"}, va), State: st.cell.ID,
+				Observed: "generator reported success; " + va["oracle"] + " oracle failed in " + va["file"] + ": " + va["diag"],
+				Expected: "two features that each yield a compilable package also do so together", Detail: map[string]any{"job": j, "typeErrors": r.TypeErr}})
+		}
+	})
+	run.Cov["level2_representatives"] = len(reps)
+	run.Cov["level2_pairs"] = len(pairStates)
+	run.Cov["level2_outcomes"] = pairOutcomes
+	run.Cov["states"] = len(states) + len(pairStates)
 	run.Cov["transitions"] = files
 	run.Cov["traces_validated_against_impl"] = judged
 	run.Cov["generator_outcomes"] = outcomes
@@ -177,7 +220,7 @@ func C01(run *report.Run) {
 	run.Cov["cells"] = len(cs)
 	run.Cov["template_coverage"] = templateCoverage(env.Pool)
 	run.Cov["rule"] = "state = (level-1 cell of the DESIGN §3 matrix, flag combination); transition = one written file judged by parser+gofmt+go/types; all cells enumerated, none sampled"
-	run.Assumptions = []string{"go/types with gc export data of the installed standard library stands for 'compiles'", "level 1 only (single cells × flags); pair level not yet enumerated for C01"}
+	run.Assumptions = []string{"go/types with gc export data of the installed standard library stands for 'compiles'", "level 2 = all unordered pairs (incl. self pairs) of one representative healthy cell per (family, position/location/site, kind) merged into one spec with renamed components and paths; not all pairs of all cells"}
 }
 
 func trunc(s string, n int) string {
@@ -185,4 +228,55 @@ func trunc(s string, n int) string {
 		return s[:n] + "…"
 	}
 	return strings.TrimSpace(s)
+}
+
+// c01Representatives picks one healthy cell per (family, position/location/site/shape, kind) — the
+// cells from which level 2 is composed (apriori rule: only cells healthy under every flag state).
+func c01Representatives(cs []cells.Cell, healthy, unhealthy map[string]bool, tier string) []cells.Cell {
+	k2 := map[string]bool{"": true}
+	for _, k := range cells.K2Names {
+		k2[k] = true
+	}
+	if tier == "thorough" {
+		for _, k := range []string{"boolean", "number", "any", "map<string>", "object+addtrue", "array<object>", "oneOf+disc"} {
+			k2[k] = true
+		}
+	}
+	seen := map[string]bool{}
+	var out []cells.Cell
+	for _, c := range cs {
+		a := c.Attrs
+		if !healthy[c.ID] || unhealthy[c.ID] || !k2[a["kind"]] {
+			continue
+		}
+		if a["form"] == "alias" || a["decl"] == "schema-alias" || a["null"] == "1" || a["level"] == "override" {
+			continue
+		}
+		if tier == "quick" && (a["fam"] == "name" || a["fam"] == "namepair" || a["fam"] == "text" || a["rform"] == "alias" || a["req"] == "1" || a["status"] == "default" || a["decl"] == "schema-ref") {
+			continue
+		}
+		key := a["fam"] + "/" + a["pos"] + "/" + a["loc"] + "/" + a["site"] + "/" + a["shape"] + "/" + a["kind"] + "/" + a["scheme"] + "/" + a["content"]
+		if tier == "thorough" {
+			key += "/" + a["form"] + a["decl"] + a["rform"] + a["bform"]
+		}
+		if seen[key] {
+			continue
+		}
+		seen[key] = true
+		out = append(out, c)
+	}
+	limit := 45
+	if tier == "thorough" {
+		limit = 110
+	}
+	if len(out) > limit {
+		// keep a spread over the families: every n-th
+		step := float64(len(out)) / float64(limit)
+		var red []cells.Cell
+		for i := 0; i < limit; i++ {
+			red = append(red, out[int(float64(i)*step)])
+		}
+		out = red
+	}
+	return out
 }
